@@ -43,7 +43,8 @@ type Sub struct {
 	Live    bool
 	Topic   *Topic
 	Cfg     SubCfg
-	DL      *Topic // dead-letter topic generation the policy points to
+	DL      *Topic   // dead-letter topic generation the policy points to
+	EverDL  []*Topic // every dead-letter topic it has pointed to (a forward may predate an update)
 	Filter  *filt.Cond
 	Expires time.Time // last activity + TTL in force at that activity
 	Delay   time.Duration
@@ -201,6 +202,15 @@ func (c SubCfg) lease(now time.Time, n int) (time.Time, time.Time) {
 		return lo, lo.Add(time.Second)
 	}
 	return lo, lo
+}
+
+func (s *Sub) everDL(t *Topic) bool {
+	for _, x := range s.EverDL {
+		if x == t {
+			return true
+		}
+	}
+	return false
 }
 
 func (s *Sub) hasDL() bool { return s.Cfg.DLTopic != "" && s.DL != nil }
@@ -393,6 +403,9 @@ func (m *Model) applyCfg(s *Sub, cfg SubCfg, resolveDL bool) codes.Code {
 		return codes.InvalidArgument
 	}
 	s.Cfg, s.DL, s.Filter = cfg, dl, f
+	if dl != nil {
+		s.EverDL = append(s.EverDL, dl)
+	}
 	return codes.OK
 }
 
@@ -561,6 +574,7 @@ func attrsEqual(a, b map[string]string) bool {
 // Pull checks a successful pull response against the model and applies it.
 func (m *Model) Pull(name string, max int, now time.Time, resp []*pubsubpb.ReceivedMessage) (res PullResult, viols []Viol) {
 	s := m.LiveSub(name)
+	learned := false // the response revealed a forward the model did not know of
 	s.Expires = now.Add(s.Cfg.ttl())
 	bad := func(prop, rule, f string, a ...any) {
 		viols = append(viols, Viol{Prop: prop, Rule: rule, Detail: fmt.Sprintf("Pull(%s,max=%d) at +%v: ", name, max, now.Sub(epoch)) + fmt.Sprintf(f, a...)})
@@ -578,6 +592,12 @@ func (m *Model) Pull(name string, max int, now time.Time, resp []*pubsubpb.Recei
 			nMust++
 		}
 		if c.c == clDLCertain || c.c == clDLMaybe {
+			nDL++
+		}
+		// a delivery whose state the model does not know may be one the pull
+		// retires into the dead-letter topic: it takes a row of the query's
+		// LIMIT without appearing in the response
+		if c.c == clMay && (d.State == Limbo || d.Fuzzy) && s.hasDL() {
 			nDL++
 		}
 		if c.c == clMustNot && c.reason == "ordering-predecessor-outstanding" {
@@ -650,12 +670,13 @@ func (m *Model) Pull(name string, max int, now time.Time, resp []*pubsubpb.Recei
 				// may have been dead-lettered into this subscription
 				for _, o := range m.AllSubs {
 					for _, x := range o.Dels {
-						if d == nil && (x.State == Limbo || x.Fuzzy) && x.Msg.ID == rm.Message.GetMessageId() && o.hasDL() && o.DL == s.Topic && matches(s, x.Msg.Spec) {
+						if d == nil && (x.State == Limbo || x.Fuzzy) && x.Msg.ID == rm.Message.GetMessageId() && o.everDL(s.Topic) && matches(s, x.Msg.Spec) {
 							x.State, x.Completed = DLd, now
 							d = m.newDel(s, x.Msg, x, now)
 							d.Fuzzy = true
 							cl[d] = cls{c: clMay}
 							m.C["forward-learned-from-limbo"]++
+							learned = true
 						}
 					}
 				}
@@ -704,6 +725,17 @@ func (m *Model) Pull(name string, max int, now time.Time, resp []*pubsubpb.Recei
 				// was handed out that way and acknowledged, its own successor is
 				// released the same way)
 				sig["expired_direct_predecessor"] = by != nil && !by.Seek && dp != nil && dp != by && dpSettled
+				// several same-key deliveries created by one operation (dead-letter
+				// forwards) carry one time: "the most recent earlier delivery" is
+				// then not well defined, which is a defect of its own (F19) and not
+				// the link-only design of F12
+				tie := false
+				for _, x := range s.Dels {
+					if dp != nil && x != dp && x != d && x.Msg.Spec.Key == d.Msg.Spec.Key && x.Pub.Equal(dp.Pub) {
+						tie = true
+					}
+				}
+				sig["predecessor_tie"] = tie
 				viols = append(viols, Viol{Prop: c.prop, Rule: "must-not/" + c.reason, Sig: sig, Detail: fmt.Sprintf("Pull(%s) at +%v returned message #%d (key %q) while earlier message #%d with the same key is still outstanding (attempts %d, state %s)", name, now.Sub(epoch), d.Msg.Idx, d.Msg.Spec.Key, by.Msg.Idx, by.N, by.State)})
 			} else {
 				var also []string
@@ -781,7 +813,10 @@ func (m *Model) Pull(name string, max int, now time.Time, resp []*pubsubpb.Recei
 			unexpected = true
 		}
 	}
-	if unexpected || m.Session {
+	// (nor when the response showed a forward the model did not know of: what
+	// was owed was computed without it, and on an ordered subscription it holds
+	// back its same-key successors)
+	if unexpected || m.Session || learned {
 		m.C["completeness-not-judged"]++
 	} else if !res.Truncated {
 		for _, d := range s.Dels {
@@ -1211,7 +1246,8 @@ func (m *Model) Summary(s *Sub, now time.Time) string {
 	ds := append([]*Del(nil), s.Dels...)
 	sort.Slice(ds, func(i, j int) bool { return ds[i].Seq < ds[j].Seq })
 	for _, d := range ds {
-		fmt.Fprintf(&sb, "  #%d key=%q %s n=%d lease=[+%v,+%v] exp=+%v\n", d.Msg.Idx, d.Msg.Spec.Key, d.State, d.N, d.Lo.Sub(epoch), d.Hi.Sub(epoch), d.Exp.Sub(epoch))
+		b, _ := m.blocked(d, now)
+		fmt.Fprintf(&sb, "  #%d key=%q %s n=%d lease=[+%v,+%v] exp=+%v pub=+%v fuzzy=%v expunknown=%v seek=%v blocked=%d class=%v\n", d.Msg.Idx, d.Msg.Spec.Key, d.State, d.N, d.Lo.Sub(epoch), d.Hi.Sub(epoch), d.Exp.Sub(epoch), d.Pub.Sub(epoch), d.Fuzzy, d.ExpUnknown, d.Seek, b, m.classify(d, now).c)
 	}
 	return sb.String()
 }
